@@ -744,6 +744,9 @@ func (c *Ctx) providerErrors(rule string) {
 			if cn := Callee(call); isErrorCtor(cn) || strings.Contains(cn, "errors.") {
 				continue // builds the error that is handed back
 			}
+			if call.Common().IsInvoke() && call.Common().Method.Name() == "Close" {
+				continue // closing the body that was read: deferred or not, nothing depends on it
+			}
 			n++
 			k, _ := c.errHandling(call)
 			ok := k == "returned"
